@@ -47,6 +47,10 @@ def radiation_sum(ck, sh, mm, gname, scale):
         dirs = dirs[:3]
 
     for (th, ph) in dirs:
+        # a 2 x 2 table per request (two zenith and two azimuth angles): code paths that share work between the rows
+        # of one request are exercised too
+        dth, dph = (7.0, 33.0)
+
         def fn(th=th, ph=ph):
             m = catalogue.build(M, gname)
             n = len(m.pulses)
@@ -54,22 +58,29 @@ def radiation_sum(ck, sh, mm, gname, scale):
             _set_currents(m, I)
             m.power = 1.0
             with symx.object_arrays():
-                m.compute_far_field(M.Angle(th, 10.0, 1), M.Angle(ph, 10.0, 1))
+                m.compute_far_field(M.Angle(th, dth, 2), M.Angle(ph, dph, 2))
             ff = m.far_field
-            at, ap = farfield.coefficients(m, th, ph)
-            rt = sum((a * i for a, i in zip(at, I)), SC(0.0, 0.0))
-            rp = sum((a * i for a, i in zip(ap, I)), SC(0.0, 0.0))
-            bound = sum(abs(a) for a in at + ap) * scale * 2
-            return dict(inputs=dict(I=I), et=ff.e_theta[0][0], ep=ff.e_phi[0][0], rt=rt, rp=rp, bound=bound)
+            ents = []
+            for a in range(2):
+                for t in range(2):
+                    if gnd and th + t * dth > 90:
+                        continue
+                    at, ap = farfield.coefficients(m, th + t * dth, ph + a * dph)
+                    rt = sum((x * i for x, i in zip(at, I)), SC(0.0, 0.0))
+                    rp = sum((x * i for x, i in zip(ap, I)), SC(0.0, 0.0))
+                    bound = sum(abs(x) for x in at + ap) * scale * 2
+                    ents.append((th + t * dth, ph + a * dph, ff.e_theta[a][t], ff.e_phi[a][t], rt, rp, bound))
+            return dict(inputs=dict(I=I), ents=ents)
 
         def goals(o):
-            tol = core.RV(Fraction(o['bound']) * Fraction(1, 10 ** 9) + Fraction(1, 10 ** 30))
             g = []
-            for nm, a, b in (('E_theta', o['et'], o['rt']), ('E_phi', o['ep'], o['rp'])):
-                d = SC.lift(a) - b
-                g.append(('%s = radiation sum' % nm,
-                          z3.And(d.re.n * 1 <= tol * d.re.den, d.re.n * 1 >= -tol * d.re.den,
-                                 d.im.n * 1 <= tol * d.im.den, d.im.n * 1 >= -tol * d.im.den)))
+            for tt, pp, et, ep, rt, rp, bound in o['ents']:
+                tol = core.RV(Fraction(bound) * Fraction(1, 10 ** 9) + Fraction(1, 10 ** 30))
+                for nm, a, b in (('E_theta', et, rt), ('E_phi', ep, rp)):
+                    d = SC.lift(a) - b
+                    g.append(('%s(%g,%g) = radiation sum' % (nm, tt, pp),
+                              z3.And(d.re.n * 1 <= tol * d.re.den, d.re.n * 1 >= -tol * d.re.den,
+                                     d.im.n * 1 <= tol * d.im.den, d.im.n * 1 >= -tol * d.im.den)))
             return g
 
         def replay(c, gn, out, th=th, ph=ph):
@@ -349,12 +360,12 @@ def main(args):
     ck = Check('C10', args)
     ck.shadow_stats = symx.load().stats
     if ck.tier == 'quick':
-        geos = ['G1', 'G2', 'G7', 'G9']
+        geos = ['G1', 'G2', 'G7', 'G9', 'G17', 'G18']
         parts = [('radiation_sum', (g, 1.0)) for g in geos]
         parts += [('tables', (g,)) for g in ('G1', 'G8')]
         parts += [('periodic', (g,)) for g in ('G2', 'G9')] + [('rotation_lemma', ())]
     else:
-        geos = ['G1', 'G2', 'G5', 'G12', 'G13', 'G7', 'G8', 'G9', 'G10', 'G14']
+        geos = ['G1', 'G2', 'G5', 'G12', 'G13', 'G17', 'G7', 'G8', 'G9', 'G10', 'G14', 'G18']
         parts = [('radiation_sum', (g, s)) for g in geos for s in (1.0, 1e3, 1e-3)]
         parts += [('tables', (g,)) for g in ('G1', 'G2', 'G8', 'G9')]
         parts += [('periodic', (g,)) for g in ('G1', 'G2', 'G5', 'G9', 'G14')] + [('rotation_lemma', ())]
